@@ -429,6 +429,28 @@ func c11Sources(c *ctx) {
 	c.R.Rule = "PathSource on a temp directory and HTTPSource on a counting HTTP server (refresh 1s): good set -> broken PEM added -> key/cert mismatch -> bad file removed -> new good set; the working set keeps being served during the bad phase, loader invocations in a window of measured length W are <= W/refresh+2 (no spinning), and the next good set is published within 5 refresh periods after the bad material is gone. evaluations = handshakes + load cycles observed; non-trivial = observation made while the source delivered unusable material; distinct by (source kind, phase, history)"
 	lc := &logCounter{}
 	log.SetOutput(lc)
+	// a load-once source (refresh 0) whose first load fails must not retry in a busy loop either
+	{
+		dir := filepath.Join(c.Dir, "certs-once")
+		os.MkdirAll(dir, 0o755)
+		os.WriteFile(filepath.Join(dir, "bad-cert.pem"), []byte("-----BEGIN CERTIFICATE-----\ngarbage\n-----END CERTIFICATE-----\n"), 0o644)
+		os.WriteFile(filepath.Join(dir, "bad-key.pem"), []byte("garbage"), 0o644)
+		l0 := lc.count()
+		ch := cert.PathSource{CertPath: dir, Refresh: 0}.Certificates()
+		t0 := time.Now()
+		select {
+		case <-ch:
+		case <-time.After(1500 * time.Millisecond):
+		}
+		w := time.Since(t0)
+		lines := lc.count() - l0
+		c.R.Eval(lines + 1)
+		c.R.Nontrivial("load-once-failing")
+		if lines > 40*(int64(w/time.Second)+2) {
+			c.R.Violate("c11:source-spins:load-once", fmt.Sprintf("path source with refresh=0 and unusable material: %d log lines in %.1fs, the watcher retries without pause", lines, w.Seconds()), nil)
+		}
+		os.RemoveAll(dir)
+	}
 	nh := c.scale(c.pick(1, 6))
 	var wg sync.WaitGroup
 	for h := 0; h < nh; h++ {
